@@ -22,8 +22,91 @@ pub struct C20 {
 
 impl C20 {
     pub fn new() -> Self {
-        C20 { tm: env::load_type_map_with(env::adversarial_classes()) }
+        let mut tm = env::load_type_map_with(env::adversarial_classes());
+        // the in-process equivalent of a directory with several .qml files: the directory module of `DOC_PATH` holds QML
+        // components (custom widgets); nothing is read from the file system
+        use qmluic::typemap::{ModuleData, ModuleIdBuf, QmlComponentData};
+        let dir = camino::Utf8PathBuf::from(DOC_DIR);
+        let mut md = ModuleData::default();
+        for (name, sup) in COMPONENTS {
+            let mut c = QmlComponentData::with_super(*name, *sup);
+            c.import_module(ModuleIdBuf::Directory(dir.clone()));
+            c.import_module(ModuleIdBuf::Named("qmluic.QtWidgets".into()));
+            md.push_qml_component(c);
+        }
+        tm.insert_module(ModuleIdBuf::Directory(dir), md);
+        C20 { tm }
     }
+}
+
+pub const DOC_DIR: &str = "/qv-virtual/c20";
+pub const DOC_PATH: &str = "/qv-virtual/c20/MyType.qml";
+/// (component, Qt super class) of the custom widgets defined next to the document
+pub const COMPONENTS: &[(&str, &str)] = &[("MyButton", "QPushButton"), ("MyLabel", "QLabel"), ("MyPanel", "QGroupBox"), ("MyEdit", "QLineEdit")];
+
+/// turns some objects into instances of the custom components (their bindings stay valid: a component inherits its super)
+fn customise(rng: &mut Rng, o: &mut Obj, is_root: bool) {
+    if !is_root && !o.id.as_deref().map(|i| i.starts_with("src")).unwrap_or(false) {
+        if let Some((name, _)) = COMPONENTS.iter().find(|(_, sup)| *sup == o.class) {
+            if rng.chance(1, 3) {
+                o.class = (*name).to_owned();
+            }
+        }
+    }
+    for c in &mut o.children {
+        customise(rng, c, false);
+    }
+}
+
+/// An unknown object type at an object whose subtree holds an instance of a custom component or an object that a
+/// surviving object refers to (`None` if the document has no such place).
+fn plant_unknown_above(rng: &mut Rng, root: &Obj, referenced: &BTreeSet<String>) -> Option<(Obj, Vec<crate::ledger::Fault>)> {
+    let pre = root.pre_order();
+    let cands: Vec<usize> = (1..pre.len())
+        .filter(|&i| {
+            let sub = pre[i].pre_order();
+            family_of(&pre[i].class) != Family::Action
+                && !sub.iter().any(|o| o.id.as_deref().map(|x| x.starts_with("src")).unwrap_or(false))
+                && sub.iter().any(|o| is_custom(&o.class) || o.id.as_ref().map(|x| referenced.contains(x)).unwrap_or(false))
+        })
+        .collect();
+    if cands.is_empty() {
+        return None;
+    }
+    let idx = *rng.pick(&cands);
+    let mut new_root = root.clone();
+    fn nth<'a>(o: &'a mut Obj, n: &mut usize) -> Option<&'a mut Obj> {
+        if *n == 0 {
+            return Some(o);
+        }
+        *n -= 1;
+        for c in &mut o.children {
+            if let Some(x) = nth(c, n) {
+                return Some(x);
+            }
+        }
+        None
+    }
+    let mut n = idx;
+    nth(&mut new_root, &mut n).unwrap().class = "NopeType".into();
+    let f = crate::ledger::Fault {
+        name: "unknown-object-type",
+        obj: idx,
+        lhs: String::new(),
+        rhs: String::new(),
+        spec: crate::ledger::LeafSpec::default(),
+        map_fault: false,
+        att_fault: false,
+        att_unresolved: false,
+        unknown_type: true,
+        message: "unknown object type",
+        reported: (true, true, true),
+    };
+    Some((new_root, vec![f]))
+}
+
+fn is_custom(class: &str) -> bool {
+    COMPONENTS.iter().any(|(n, _)| *n == class)
 }
 
 /// removes the ids of some objects nobody refers to (so that generated names take part in the comparison)
@@ -41,6 +124,9 @@ fn anonymise(rng: &mut Rng, o: &mut Obj, referenced: &BTreeSet<String>, keep: Op
 
 fn referenced_ids(o: &Obj, out: &mut BTreeSet<String>) {
     for (l, r) in &o.bindings {
+        if l == "buddy" {
+            out.insert(r.clone());
+        }
         if l == "actions" {
             for x in r.trim_matches(|c| c == '[' || c == ']').split(',') {
                 out.insert(x.trim().trim_end_matches(".menuAction()").to_owned());
@@ -85,13 +171,50 @@ impl Stream for C20 {
         let per_doc = if thorough { 6 } else { 4 };
         for k in 0..n {
             let mut rng = Rng::fork(seed, "c20", k as u64);
-            let (root, records) = gen_clean(&mut rng);
-            let opts = gen_opts(&mut rng);
-            for j in 0..per_doc {
+            let (mut root, records) = gen_clean(&mut rng);
+            // half of the documents live in a directory with custom components
+            let with_components = k % 2 == 0;
+            let mut opts = gen_opts(&mut rng);
+            if with_components {
+                customise(&mut rng, &mut root, true);
+                opts.path = Some(DOC_PATH);
+            }
+            let mut referenced = BTreeSet::new();
+            referenced_ids(&root, &mut referenced);
+            for j in 0..=per_doc {
                 let kind = (k * per_doc + j) % FAULT_KINDS;
-                let Some((froot, faults)) = plant_fault(&mut rng, &root, kind) else { continue };
+                // the last round of a document: an unknown type placed on purpose above a custom component / a referenced id
+                let planted = if j < per_doc { plant_fault(&mut rng, &root, kind) } else { plant_unknown_above(&mut rng, &root, &referenced) };
+                let Some((mut froot, mut faults)) = planted else { continue };
+                if faults[0].unknown_type {
+                    // prefer an unknown type ABOVE objects of a custom component and above objects other objects refer to
+                    let interesting = |f: &crate::ledger::Fault| {
+                        let sub = root.pre_order()[f.obj];
+                        sub.pre_order().iter().any(|o| is_custom(&o.class) || o.id.as_ref().map(|i| referenced.contains(i)).unwrap_or(false))
+                    };
+                    let mut tries = 0;
+                    while !interesting(&faults[0]) && tries < 6 {
+                        if let Some((r2, f2)) = plant_fault(&mut rng, &root, kind) {
+                            froot = r2;
+                            faults = f2;
+                        }
+                        tries += 1;
+                    }
+                }
                 let fault = &faults[0];
                 let mut labels = vec![format!("fault:{}", fault.name), format!("at:{}", root.pre_order()[fault.obj].class)];
+                if with_components {
+                    labels.push("components".into());
+                }
+                if fault.unknown_type {
+                    let sub = root.pre_order()[fault.obj];
+                    if sub.pre_order().iter().any(|o| is_custom(&o.class)) {
+                        labels.push("above-custom-component".into());
+                    }
+                    if sub.pre_order().iter().any(|o| o.id.as_ref().map(|i| referenced.contains(i)).unwrap_or(false)) {
+                        labels.push("above-referenced-id".into());
+                    }
+                }
                 if faults.len() > 1 {
                     labels.push(format!("planted{}", faults.len()));
                 }
@@ -104,7 +227,6 @@ impl Stream for C20 {
                 cases.push(Case { kind: "oracle", labels: l2, request: req });
             }
         }
-        let _ = (family_of("QWidget"), Family::Widget);
         cases
     }
 
@@ -136,11 +258,43 @@ pub fn local_case(seed: u64, index: u64, root: &Obj, froot: &Obj, faults: &[crat
         let mut arng = Rng::fork(seed, "c20-anon", index);
         anonymise(&mut arng, &mut faulted, &referenced, target_id.as_deref(), true);
     }
+    let mut vanished: BTreeSet<String> = BTreeSet::new();
     if fault.unknown_type {
+        let mut gone = vec![];
+        all_ids(root.pre_order()[fault.obj], &mut gone);
+        vanished.extend(gone);
         let mut idx = fault.obj;
         remove_nth(&mut free, &mut idx);
+        // the twin: exactly that subtree removed; references of surviving objects to the vanished ids are gone with it
+        // (in the faulted document they must be diagnosed or dropped, never written)
+        fn strip(o: &mut Obj, vanished: &BTreeSet<String>) {
+            o.bindings.retain(|(l, r)| !(l == "buddy" && vanished.contains(r)));
+            for c in &mut o.children {
+                strip(c, vanished);
+            }
+        }
+        strip(&mut free, &vanished);
     }
     let fd = Doc::build_opts(&faulted, &[], faults, opts);
+    // ranges of the dangling references in the faulted document (outside the vanished subtree)
+    let gone_objs: BTreeSet<usize> = (0..fd.objs.len())
+        .filter(|&i| {
+            let mut cur = Some(i);
+            while let Some(c) = cur {
+                if !fd.objs[c].resolves {
+                    return true;
+                }
+                cur = fd.objs[c].parent;
+            }
+            false
+        })
+        .collect();
+    let dangling: Vec<Sexp> = fd
+        .bindings
+        .iter()
+        .filter(|b| b.lhs == "buddy" && vanished.contains(&b.rhs) && !gone_objs.contains(&b.obj))
+        .map(|b| crate::sexp::list(vec![num(b.range.0), num(b.range.1), st(b.rhs.clone())]))
+        .collect();
     let free_src = Doc::build_opts(&free, &[], &[], opts).src;
     let mut ids = vec![];
     all_ids(&free, &mut ids);
@@ -156,6 +310,8 @@ pub fn local_case(seed: u64, index: u64, root: &Obj, froot: &Obj, faults: &[crat
             crate::streams::c04::also_sexp(&fd, faults),
             node("at", vec![st(at)]),
             node("lost", vec![st(fault.lhs.split('.').next().unwrap_or("").to_owned())]),
+            node("dangling", dangling),
+            node("path", opts.path.map(|p| vec![st(p)]).unwrap_or_default()),
         ],
     );
     (req, n_anon)
@@ -206,6 +362,26 @@ fn witness_request(name: &str) -> Sexp {
             let faulted = doc(Obj::new("QLabel").with_id("l").bind("text", "srcSpin.value"));
             let f = mk("dynamic-type-mismatch", 2, "text", "srcSpin.value", LeafSpec { konst: Konst::Dyn, ret_ok: false, ..base.clone() }, false, "expression type mismatch", (true, true, true));
             local_case(0, 0, &free, &faulted, std::slice::from_ref(&f), crate::ledger::DocOpts::default(), false).0
+        }
+        // an unknown type above an instance of a custom component and above an object a surviving label refers to
+        "unknown-above-component" => {
+            let doc = |mid: Option<Obj>, buddy: bool| {
+                let mut head = Obj::new("QLabel").with_id("head").bind("text", "\"head\"");
+                if buddy {
+                    head = head.bind("buddy", "inner");
+                }
+                let mut lay = Obj::new("QVBoxLayout").with_id("lay").child(head);
+                if let Some(m) = mid {
+                    lay = lay.child(m);
+                }
+                root(vec![lay.child(Obj::new("MyLabel").with_id("tail"))])
+            };
+            let boxed = |class: &str| Obj::new(class).with_id("box").bind("title", "\"t\"").child(Obj::new("MyButton").with_id("inner"));
+            let free = doc(Some(boxed("QGroupBox")), true);
+            let faulted = doc(Some(boxed("NopeType")), true);
+            let mut f = mk("unknown-object-type", 3, "", "", base.clone(), false, "unknown object type", (true, true, true));
+            f.unknown_type = true;
+            local_case(0, 0, &free, &faulted, std::slice::from_ref(&f), crate::ledger::DocOpts { import_version: false, path: Some(DOC_PATH) }, false).0
         }
         _ => node("bad-request", vec![]),
     }
@@ -312,8 +488,10 @@ fn local_oracle(tm: &TypeMap, args: &[Sexp]) -> Sexp {
     let at = arg(args, "at")[0].as_str().unwrap().to_owned();
     let lost = arg(args, "lost")[0].as_str().unwrap().to_owned();
     let f = decode_fault(args);
-    let a = env::translate(tm, &src, "MyType", Mode::Omit);
-    let b = env::translate(tm, &free, "MyType", Mode::Omit);
+    let path: Option<String> = arg(args, "path").first().and_then(|p| p.as_str().map(|s| s.to_owned()));
+    let translate = |s: &str, mode: Mode| ledger::translate_checked_at(tm, s, mode, path.as_deref()).0;
+    let a = translate(&src, Mode::Omit);
+    let b = translate(&free, Mode::Omit);
     if a.syntax_errors > 0 || b.syntax_errors > 0 {
         return fail("syntax error in generated document".into());
     }
@@ -327,7 +505,7 @@ fn local_oracle(tm: &TypeMap, args: &[Sexp]) -> Sexp {
     let omit_inside = inside(&a);
     // every error is still reported: what generate mode reports inside the planted binding, omit mode must report too
     // (errors only `UiSupportCode::build` can see: F21, repaired in /repo c47e7fb — this check fails if that is reverted)
-    let g = env::translate(tm, &src, "MyType", Mode::Generate);
+    let g = translate(&src, Mode::Generate);
     if let Some(m) = inside(&g).iter().find(|m| !omit_inside.contains(m)) {
         return fail(format!(
             "fault {} at '{at}': error reported in generate mode only (C++ pass): '{m}'; omit mode reports {}",
@@ -348,6 +526,17 @@ fn local_oracle(tm: &TypeMap, args: &[Sexp]) -> Sexp {
             let n_class = a.diags.iter().filter(|d| d.is_error && d.message.contains(message)).count();
             if !here && (k > 0 || n_class == 0 || planted.len() > 1) {
                 return fail(format!("fault {} (planted binding {k}): error '{message}' not reported in omit mode; got {:?}", f.name, a.diags.iter().map(|d| d.message.clone()).collect::<Vec<_>>()));
+            }
+        }
+    }
+    // a reference of a surviving object to an id that vanished with the unknown-type subtree is diagnosed …
+    for d in arg(args, "dangling") {
+        let l = d.as_list().unwrap();
+        let (s, e, id) = (l[0].as_usize().unwrap(), l[1].as_usize().unwrap(), l[2].as_str().unwrap());
+        if !a.diags.iter().any(|x| x.is_error && s <= x.start && x.end <= e) {
+            // … or at least never written: the tree comparison below decides; say what was expected
+            if ua.contains(&format!("<cstring>{id}</cstring>")) {
+                return fail(format!("fault {}: reference to the vanished object '{id}' is written to the form (<cstring>{id}</cstring>) without a diagnostic", f.name));
             }
         }
     }
